@@ -156,31 +156,43 @@ def unbeatableStrike (nice : Nat → Bool) (rest : List Nat) : Nat :=
         else go t 0 reads
   (go rest 0 0 / 3) * 3
 
-def c40Step (p : C40P) : Option (C40P × StepResult) :=
-  let init : Option C40P :=
-    if p.values = 0 ∧ p.unbeatableReads = 0 then
-      let p1 : Option C40P :=
-        match p.ctx.rest with
-        | [a, b] =>
-          if isDigit a && isDigit b then
-            match p.ctx.sizeLeft 1 with
-            | none => none
-            | some spaceLeft =>
-              let p := { p with twoDigitAsciiEnd := spaceLeft ≤ 1 }
-              if spaceLeft = 1 then some { p with unbeatableReads := 2, ctx := p.ctx.write 2 }
-              else if spaceLeft = 0 then some { p with unbeatableReads := 2, ctx := p.ctx.write 1 }
-              else some p
-          else some p
-        | _ => some p
-      match p1 with
+/-- "are the only remaining characters two ascii digits?"; `none` = `symbol_size_left(1)?` -/
+def c40TwoDigit (p : C40P) : Option C40P :=
+  match p.ctx.rest with
+  | [a, b] =>
+    if isDigit a && isDigit b then
+      match p.ctx.sizeLeft 1 with
       | none => none
-      | some p =>
-        if !p.twoDigitAsciiEnd then
-          let u := unbeatableStrike (c40InBase p.text) p.ctx.rest
-          some { p with unbeatableReads := u, ctx := p.ctx.write ((u / 3) * 2) }
-        else some p
+      | some spaceLeft =>
+        if spaceLeft = 1 then
+          some { p with twoDigitAsciiEnd := decide (spaceLeft ≤ 1), unbeatableReads := 2, ctx := p.ctx.write 2 }
+        else if spaceLeft = 0 then
+          some { p with twoDigitAsciiEnd := decide (spaceLeft ≤ 1), unbeatableReads := 2, ctx := p.ctx.write 1 }
+        else some { p with twoDigitAsciiEnd := decide (spaceLeft ≤ 1) }
     else some p
-  match init with
+  | _ => some p
+
+/-- "count number of base set characters coming" -/
+def c40Strike (p : C40P) : C40P :=
+  if !p.twoDigitAsciiEnd then
+    let u := unbeatableStrike (c40InBase p.text) p.ctx.rest
+    { p with unbeatableReads := u, ctx := p.ctx.write ((u / 3) * 2) }
+  else p
+
+/-- the look-ahead at a value boundary (first block of `step`) -/
+def c40Init (p : C40P) : Option C40P :=
+  if p.values = 0 ∧ p.unbeatableReads = 0 then (c40TwoDigit p).map c40Strike else some p
+
+/-- `while self.values >= 3 { .. }` (at most two rounds: `values ≤ 2 + 4`) -/
+def c40Flush (unbeatable : Bool) : Nat → C40P → C40P
+  | 0, p => p
+  | f + 1, p =>
+    if p.values ≥ 3 then
+      c40Flush unbeatable f { p with cost := p.cost + 24, ctx := if !unbeatable then p.ctx.write 2 else p.ctx, values := p.values - 3 }
+    else p
+
+def c40Step (p : C40P) : Option (C40P × StepResult) :=
+  match c40Init p with
   | none => none
   | some p =>
     let unbeatable := p.unbeatableReads > 0
@@ -194,13 +206,7 @@ def c40Step (p : C40P) : Option (C40P × StepResult) :=
           let p := if !p.twoDigitAsciiEnd ∨ p.values = 0 then { p with values := p.values + 1 } else p
           { p with unbeatableReads := p.unbeatableReads - 1 }
         else { p with values := p.values + c40ValSize p.text ch }
-      let rec flush : Nat → C40P → C40P
-        | 0, p => p
-        | f + 1, p =>
-          if p.values ≥ 3 then
-            flush f { p with cost := p.cost + 24, ctx := if !unbeatable then p.ctx.write 2 else p.ctx, values := p.values - 3 }
-          else p
-      some (flush 3 p, { «end» := end_, unbeatable })
+      some (c40Flush unbeatable 3 p, { «end» := end_, unbeatable })
 
 def c40Cost (p : C40P) : Nat :=
   if p.ctx.hasMore then p.cost + 2 * p.values * 4      -- Frac::new(2·values, 3)
@@ -226,37 +232,35 @@ def c40Unlatch (p : C40P) : R Ctx :=
 
 def isNativeX12 (ch : Nat) : Bool := ch == 13 || ch == 42 || ch == 62 || ch == 32 || isDigit ch || (65 ≤ ch && ch ≤ 90)
 
+/-- the end-of-data look-ahead of `X12Plan::step`; `.ok none` = `symbol_size_left(..)?` -/
+def x12Init (p : X12P) : R (Option X12P) :=
+  if p.values = 0 ∧ p.ctx.charsLeft ≤ 2 ∧ p.asciiEnd.isNone then
+    let asz := asciiSize p.ctx.rest
+    match frac asz p.ctx.charsLeft with
+    | .error e =>
+      -- `Frac::new` is reached on every path below that does not return early
+      if asz = 1 then
+        match p.ctx.sizeLeft asz with
+        | none => .ok none
+        | some _ => .error e
+      else .error e
+    | .ok f =>
+      if asz = 1 then
+        match p.ctx.sizeLeft asz with
+        | none => .ok none
+        | some spaceLeft =>
+          if spaceLeft = 1 then .ok (some { p with cost := p.cost + 12, asciiEnd := some f })
+          else if spaceLeft = 0 then .ok (some { p with asciiEnd := some f })
+          else .ok (some { p with cost := p.cost + 12, asciiEnd := some f })
+      else .ok (some { p with cost := p.cost + 12, asciiEnd := some f })
+  else .ok (some p)
+
 /-- `None` of the Rust function = `.ok none` -/
 def x12Step (p : X12P) : R (Option (X12P × StepResult)) :=
   let end_ := !p.ctx.hasMore
   if end_ then .ok (some (p, { «end» := end_, unbeatable := p.asciiEnd.isSome }))
   else
-    let init : R (Option X12P) :=
-      if p.values = 0 ∧ p.ctx.charsLeft ≤ 2 ∧ p.asciiEnd.isNone then
-        let asz := asciiSize p.ctx.rest
-        let p1 : R (Option X12P) :=
-          if asz = 1 then
-            match p.ctx.sizeLeft asz with
-            | none => .ok none
-            | some spaceLeft =>
-              if spaceLeft ≤ 1 then
-                let p := if spaceLeft = 1 then { p with cost := p.cost + 12 } else p
-                match frac asz p.ctx.charsLeft with
-                | .error e => .error e
-                | .ok f => .ok (some { p with asciiEnd := some f })
-              else .ok (some p)
-          else .ok (some p)
-        match p1 with
-        | .error e => .error e
-        | .ok none => .ok none
-        | .ok (some p) =>
-          if p.asciiEnd.isNone then
-            match frac asz p.ctx.charsLeft with
-            | .error e => .error e
-            | .ok f => .ok (some { p with cost := p.cost + 12, asciiEnd := some f })
-          else .ok (some p)
-      else .ok (some p)
-    match init with
+    match x12Init p with
     | .error e => .error e
     | .ok none => .ok none
     | .ok (some p) =>
@@ -280,36 +284,37 @@ def x12Unlatch (p : X12P) : R Ctx :=
 
 def ediEncodable (ch : Nat) : Bool := 32 ≤ ch && ch ≤ 94
 
+/-- the end-of-data look-ahead of `EdifactPlan::step` -/
+def ediInit (p : EdiP) : R (Option EdiP) :=
+  if p.written = 0 ∧ p.ctx.charsLeft ≤ 4 ∧ p.asciiEnd.isNone then
+    let asz := asciiSize p.ctx.rest
+    if asz ≤ 2 then
+      match p.ctx.sizeLeft asz with
+      | none => .ok none
+      | some spaceLeft =>
+        if spaceLeft + asz ≤ 2 then
+          match frac asz p.ctx.charsLeft with
+          | .error e => .error e
+          | .ok f => .ok (some { p with asciiEnd := some f })
+        else .ok (some p)
+    else .ok (some p)
+  else .ok (some p)
+
 def ediStep (p : EdiP) : R (Option (EdiP × StepResult)) :=
   let end_ := !p.ctx.hasMore
   if end_ then .ok (some (p, { «end» := end_, unbeatable := p.asciiEnd.isSome }))
   else
-    let init : R (Option EdiP) :=
-      if p.written = 0 ∧ p.ctx.charsLeft ≤ 4 ∧ p.asciiEnd.isNone then
-        let asz := asciiSize p.ctx.rest
-        if asz ≤ 2 then
-          match p.ctx.sizeLeft asz with
-          | none => .ok none
-          | some spaceLeft =>
-            if spaceLeft + asz ≤ 2 then
-              match frac asz p.ctx.charsLeft with
-              | .error e => .error e
-              | .ok f => .ok (some { p with asciiEnd := some f })
-            else .ok (some p)
-        else .ok (some p)
-      else .ok (some p)
-    match init with
+    match ediInit p with
     | .error e => .error e
     | .ok none => .ok none
     | .ok (some p) =>
-      if p.asciiEnd.isNone ∧ !ediEncodable p.ctx.peek then .ok none
-      else
-        let p := { p with ctx := p.ctx.eat }
-        match p.asciiEnd with
-        | some portion =>
-          .ok (some ({ p with cost := p.cost + portion }, { «end» := end_, unbeatable := true }))
-        | none =>
-          let p := { p with cost := p.cost + 9, written := (p.written + 1) % 4 }
+      match p.asciiEnd with
+      | some portion =>
+        .ok (some ({ p with ctx := p.ctx.eat, cost := p.cost + portion }, { «end» := end_, unbeatable := true }))
+      | none =>
+        if !ediEncodable p.ctx.peek then .ok none
+        else
+          let p := { p with ctx := p.ctx.eat, cost := p.cost + 9, written := (p.written + 1) % 4 }
           let p := if p.written = 0 then { p with ctx := p.ctx.write 3 } else p
           .ok (some (p, { «end» := end_, unbeatable := false }))
 
@@ -423,6 +428,23 @@ def modeBit : EMode → Nat
 
 def enabledMode (modes : Nat) (m : EMode) : Bool := modes / modeBit m % 2 == 1
 
+def switchTargets : List (EMode × Nat) :=
+  [(EMode.ascii, 0), (.base256, 1), (.edifact, 1), (.x12, 1), (.text, 1), (.c40, 1)]
+
+/-- the six `add_switch!` blocks of `add_switches`, in source order -/
+def addSwitchesGo (g : GPlan) (restLen : Nat) (asStart : Bool) (modes : Nat) (asciiCost : Nat) (ctx : Ctx) :
+    List (EMode × Nat) → List GPlan → Nat → R (List GPlan × Nat)
+  | [], acc, n => .ok (acc.reverse, n)
+  | (m, costExtra) :: t, acc, n =>
+    if g.current ≠ m ∧ enabledMode modes m then
+      let switches := if asStart then [(restLen, m)] else g.switches ++ [(restLen, m)]
+      let cand : GPlan := { extra := asciiCost + costExtra * 12, switches, plan := newPlan m (ctx.write costExtra) }
+      match cand.step with
+      | .error e => .error e
+      | .ok none => addSwitchesGo g restLen asStart modes asciiCost ctx t acc (n + 1)
+      | .ok (some (c, _)) => addSwitchesGo g restLen asStart modes asciiCost ctx t (c :: acc) (n + 1)
+    else addSwitchesGo g restLen asStart modes asciiCost ctx t acc n
+
 /-- `add_switches`: returns the new plans (in push order) and the number of `step()` calls -/
 def GPlan.addSwitches (g : GPlan) (restLen : Nat) (asStart : Bool) (modes : Nat) : R (List GPlan × Nat) :=
   match g.switchCost with
@@ -433,23 +455,10 @@ def GPlan.addSwitches (g : GPlan) (restLen : Nat) (asStart : Bool) (modes : Nat)
     | .ok ctx =>
       if asStart ∧ g.switches.length ≠ 1 then
         -- the assertion sits inside the macro: it only fires if some switch is added
-        if ([EMode.ascii, .base256, .edifact, .x12, .text, .c40].any fun m => g.current ≠ m && enabledMode modes m) then
+        if (switchTargets.any fun t => g.current ≠ t.1 && enabledMode modes t.1) then
           .error (.panic "assert_eq!(self.switches.len(), 1)")
         else .ok ([], 0)
-      else
-        let targets := [(EMode.ascii, 0), (.base256, 1), (.edifact, 1), (.x12, 1), (.text, 1), (.c40, 1)]
-        let rec go : List (EMode × Nat) → List GPlan → Nat → R (List GPlan × Nat)
-          | [], acc, n => .ok (acc.reverse, n)
-          | (m, costExtra) :: t, acc, n =>
-            if g.current ≠ m ∧ enabledMode modes m then
-              let switches := if asStart then [(restLen, m)] else g.switches ++ [(restLen, m)]
-              let cand : GPlan := { extra := asciiCost + costExtra * 12, switches, plan := newPlan m (ctx.write costExtra) }
-              match cand.step with
-              | .error e => .error e
-              | .ok none => go t acc (n + 1)
-              | .ok (some (c, _)) => go t (c :: acc) (n + 1)
-            else go t acc n
-        go targets [] 0
+      else addSwitchesGo g restLen asStart modes asciiCost ctx switchTargets [] 0
 
 /-! ### `remove_hopeless_cases` on plans (same algorithm as `DM/Model/Prune.lean`) -/
 
